@@ -328,4 +328,8 @@ HARNESSES += [h for h in _c06.HARNESSES if h.name == "H06a-two-saves"]
 from specs import c07 as _c07   # noqa: E402
 
 HARNESSES += [h for h in _c07.HARNESSES if h.name in ("H07a", "H07b")]
+# 'the saved file reopens to the same grid': rows are found through the tile list and the row records - shared with C06
+from specs import c06 as _c06b   # noqa: E402
+
+HARNESSES += [h for h in _c06b.HARNESSES if h.name == "H06c"]
 PROPERTY = "C03"
